@@ -28,9 +28,9 @@ type evT struct {
 }
 
 type watchCase struct {
-	Events     []evT    `json:"events"`
-	Subscribed []string `json:"subscribed"` // empty = all
-	StartupFails bool   `json:"startup_fails,omitempty"` // the task exits non-zero in the start-up run (no event yet) and zero when run for an event
+	Events       []evT    `json:"events"`
+	Subscribed   []string `json:"subscribed"`              // empty = all
+	StartupFails bool     `json:"startup_fails,omitempty"` // the task exits non-zero in the start-up run (no event yet) and zero when run for an event
 }
 
 var opOf = map[string]fsnotify.Op{"create": fsnotify.Create, "write": fsnotify.Write, "remove": fsnotify.Remove, "rename": fsnotify.Rename, "chmod": fsnotify.Chmod}
